@@ -1052,6 +1052,7 @@ def analyse(rep: Report) -> None:
     rep.rule('R07.5', 'option parsers keep no state between the items of a list value', floor=3)
     rep.rule('R07.6', 'a cloned options container shares no group container with its source', floor=1)
     rep.rule('R07.7', 'error positions forwarded in media URLs are converted with the representation of their own media type (rule of C16)', floor=1)
+    rep.rule('R07.8', 'a date-time option written into a URL is parsed back to the same instant and offset (rules of C19)', floor=1)
     idx = Index(rep.repo)
     cg = CallGraph(idx)
     opts = read_registry(rep, idx)
@@ -1073,3 +1074,6 @@ def analyse(rep: Report) -> None:
         _c16.r16_10(sub, _idx)
     lift(rep, 'R07.7', 'C16', _run, ('R16.10',), 'dashlive/server/requesthandler/manifest_context.py::ManifestContext.calculate_cgi_parameters',
          'verr / aerr / terr positions use their own representation')
+    # the explicit availability start travels through URL text: ISO date-time formatter and parser (C19's rules)
+    from .c19 import lift_into
+    lift_into(rep, 'R07.8', ('R19.2', 'R19.3', 'R19.7'), 'ISO date-time text of the start option: formatted and parsed back to the same instant')
